@@ -2,7 +2,7 @@
    bool, option, list, prod, unit, sumbool map to OCaml's own; byte, N, positive, Z, nat
    stay as extracted inductives.  No Extract Constant. *)
 From Coq Require Import Extraction ExtrOcamlBasic.
-From PV Require Import Bytes Result Pae Base64 Text.
+From PV Require Import Bytes Result Pae Base64 Text Tokens Validation.
 Extraction Language OCaml.
 Set Extraction KeepSingleton.
 
@@ -10,4 +10,5 @@ Extraction "model.ml"
   b2n n2b
   pae pae_writes pae_spec unpae
   encode decode_vec decode_fixed
-  print_paserk parse_paserk parse_keyid print_token parse_token fdec_vec fdec_unit.
+  print_paserk parse_paserk parse_keyid print_token parse_token fdec_vec fdec_unit
+  validate transform ts_min ts_max.
